@@ -19,9 +19,9 @@ func init() {
 				"C01.see (ancestry comparisons on per-creator indexes are non-strict >=; the coordinate merge keeps the larger index), " +
 				"C01.fame (fame is set only for an undecided witness, in a normal (non-coin) round, by a supermajority; COIN_ROUND_FREQ/ROOT_DEPTH are compile-time constants; Famous / decided have a single writer; a decided round stays decided), " +
 				"C01.rr (round-received needs all witnesses of the round decided, every famous witness seeing the event, at least a supermajority of them; first such round only; search starts at round(x)+1), " +
-				"C01.order (the consensus sort reads only Lamport timestamp and signature; Frame.Events is stored sorted), C01.inorder (rounds processed ascending, shared with C02.order), C01.roundonce (a decided round is turned into a block once, also across error exits: a node that delivers a round twice disagrees with its peers at every later index; shared with C02.once). " +
+				"C01.order (the consensus sort reads only Lamport timestamp and signature; Frame.Events is stored sorted), C01.inorder (rounds processed ascending, shared with C02.order), C01.roundonce (a decided round is turned into a block once, also across error exits: a node that delivers a round twice disagrees with its peers at every later index; shared with C02.once), C01.peers (a recorded validator set is never reordered or overwritten in place — by anybody, the HTTP service included: the peer-set hash a node writes into its blocks is computed over that slice; shared with C10.immutable). " +
 				"NOT covered: correctness of the voting scheme itself, the coin, that `break VOTE_LOOP` is order-independent, LRU eviction of RoundInfo objects."},
-		Rules: []ruleFunc{c01thr, c01pair, c01see, c01fame, c01rr, c01order, func(p *Prog, r *Report) { c02orderAs(p, r, "C01.inorder") }, func(p *Prog, r *Report) { onceRule(p, r, "C01.roundonce") }},
+		Rules: []ruleFunc{c01thr, c01pair, c01see, c01fame, c01rr, c01order, func(p *Prog, r *Report) { c02orderAs(p, r, "C01.inorder") }, func(p *Prog, r *Report) { onceRule(p, r, "C01.roundonce") }, c01peers},
 	})
 	register(&propDef{
 		ID: "C04", NeedCG: true,
@@ -34,6 +34,10 @@ func init() {
 		Rules: []ruleFunc{c04lamport, c04sort, c04batch, c04once, func(p *Prog, r *Report) { onceRule(p, r, "C04.roundonce") }},
 	})
 }
+
+// c01peers: the validator sets a node hashes into its blocks are never mutated in place (the rule
+// of C10.immutable; an in-place reorder on one node makes its PeersHash / FrameHash diverge).
+func c01peers(p *Prog, r *Report) { immutableRule(p, r, "C01.peers") }
 
 func c02orderAs(p *Prog, r *Report, rule string) {
 	// re-run C02.order's obligations under another rule id
